@@ -621,10 +621,9 @@ def contrInit : Contr → Except Err Unit
 its empty short-circuit is "only implemented for output types: 'pandas', 'numpy' or 'sparse'" and
 raises ValueError for `narwhals` (a bare categorical column goes through `_encode_categorical`, which
 asks for `pandas` instead) -/
-def encoderShortCircuitFails (out : Output) (via : Via) (L : List Val) (reduced : Bool) : Bool :=
-  match via, out with
-  | .cwrap _ _, .narwhals => shortCircuit L reduced
-  | _, _ => false
+def encoderShortCircuitFails (_out : Output) (_via : Via) (_L : List Val) (_reduced : Bool) : Bool :=
+  -- since repair 31b1146 the empty encoding is built for `narwhals` as for `pandas`: no failing combination is left
+  false
 
 /-- `_encode_evaled_factor(factor, spec, drop_rows, reduced_rank)` followed by
 `_flatten_encoded_evaled_factor`: the columns and whether a `DataMismatchWarning` was issued.
@@ -846,14 +845,12 @@ def buildMatrix (s : Spec) (fr : Frame) (drop : List Nat) (cache : Cache) : Exce
     match enforceAll (List.replicate (nRetained fr drop) (some 0)) gens with
     | .error e => .error e
     | .ok fin =>
-      -- `_combine_columns` of the narwhals materializer with no column at all and `output='narwhals'`:
-      -- `nw.from_native(numpy.empty((n, 0)))` is a TypeError (finding C09-F1)
-      if s.output = .narwhals ∧ fin.flatMap (·.2) = [] then .error .typeError
-      else
-        .ok { cols := fin.flatMap (·.2)
-              warn := w
-              branches := fin.map (·.1)
-              generated := gens.map (fun g => g.1.map (·.name)) }
+      -- (until repair 231efbe the narwhals materializer could not return a matrix with no column at all
+      -- as `output='narwhals'`: `nw.from_native(numpy.empty((n, 0)))` raised TypeError; now an empty frame)
+      .ok { cols := fin.flatMap (·.2)
+            warn := w
+            branches := fin.map (·.1)
+            generated := gens.map (fun g => g.1.map (·.name)) }
 
 def buildAll (fr : Frame) (drop : List Nat) (cache : Cache) : List Spec → Except Err (List Result)
   | [] => .ok []
